@@ -113,7 +113,7 @@ func cdxFlow(c *Ctx) {
 		}
 		for _, d := range pkgFilter(c.reachDecls(R, cdxUnser), "unserializers.") {
 			ast.Inspect(d.fd.Body, func(n ast.Node) bool {
-				if rs, ok := n.(*ast.RangeStmt); ok && elemNamed(d, rs.X, "Lifecycle") && strings.Contains(exprText(c.P.Fset, rs.Body), "DocumentTypes") {
+				if rs, ok := n.(*ast.RangeStmt); ok && elemNamed(d, rs.X, "Lifecycle") && strings.Contains(exprText(c.P.Fset, rs.Body), "DocumentType") {
 					rl = true
 				}
 				return true
